@@ -220,13 +220,8 @@ Proof.
   intros s j I. split.
   - apply (InvE_fdcs 0 1 s (ev_u2 s j)); try reflexivity; [constructor; reflexivity| |apply InvW_InvE; assumption].
     apply (AcctD_change 0 1 s); try reflexivity; [apply Acct_AcctD; apply (iw_acct _ I)|]. unfold ev_u2. sp. lia.
-  - constructor; try reflexivity.
-    + unfold ev_u2. sp. lia.
-    + unfold ev_u2. sp. apply remz_length.
-    + unfold ev_u2. sp. lia.
-    + rewrite (tmeasure_same s); [lia|reflexivity..].
-    + tauto.
-    + left. reflexivity.
+  - constructor; try reflexivity;
+      try (unfold ev_u2; sp; first [apply remz_length | tauto | left; reflexivity | lia]).
 Qed.
 
 Lemma event_unregister_ok : forall s j, InvW s -> 0 <= j < 16 -> ev_reg s j = true ->
@@ -244,10 +239,11 @@ Proof.
     + assert (R16 : rw_reg s 16 = true) by (apply V5; split; [reflexivity|lia]).
       eapply okr_bind; [apply (raw_unregister_ok 1 (ev_u2 s j) 16 I2 R16)|].
       intros s3 (A & B & C & D & E). cbn [okr]. destruct C as [E1 E2 E3 E4 E5 E6 E7].
-      apply (ev_unreg_fin s s3 j I J RT A); try congruence. Show.
-      * eapply Fr_trans; eassumption.
-      * rewrite D, upd_same, E5, E3, U2, C2, U. split; [discriminate|intros [_ Q]; lia].
-      * rewrite E6, E5, U2, U. change (active_ref (ev_u2 s j)) with (active_ref s).
+      apply (ev_unreg_fin s s3 j I J RT A);
+        [eapply Fr_trans; eassumption|rewrite E1; reflexivity|rewrite E2; reflexivity|rewrite E4; reflexivity
+        |rewrite E3; reflexivity|rewrite E7; reflexivity|..].
+      * rewrite D, upd_same, E5, E3, U2, C2, ?U. split; [discriminate|intros [_ Q]; lia].
+      * rewrite E6, E5, U2, ?U. change (active_ref (ev_u2 s j)) with (active_ref s).
         split; [intros Q; destruct (proj1 V6 Q); discriminate|intros [Q _]; discriminate].
       * intros Q. rewrite E6. change (active_ref (ev_u2 s j)) with (active_ref s). apply V7.
         unfold is_epoll in *. rewrite E7 in Q. exact Q.
@@ -256,11 +252,13 @@ Proof.
       { destruct (is_epoll s) eqn:Q; [reflexivity|]. rewrite (V7 eq_refl) in AR. discriminate. }
       eapply okr_bind; [apply (event_rx_off_ok 1 (ev_u2 s j) I2 EPL AR)|].
       intros s3 (A & B & C & D & E1 & E2 & E3 & E4 & E5 & E6 & E7). cbn [okr].
-      apply (ev_unreg_fin s s3 j I J RT A); try congruence.
-      * eapply Fr_trans; eassumption.
-      * rewrite E7, E5, U2, U. change (rw_reg (ev_u2 s j) 16) with (rw_reg s 16).
+      apply (ev_unreg_fin s s3 j I J RT A);
+        [eapply Fr_trans; eassumption|rewrite E1; reflexivity|rewrite E2; reflexivity|rewrite E4; reflexivity
+        |rewrite E3; reflexivity|rewrite E6; reflexivity|..].
+      * rewrite E7, E5, U2, ?U. change (rw_reg (ev_u2 s j) 16) with (rw_reg s 16).
         split; [intros Q; destruct (proj1 V5 Q); discriminate|intros [Q _]; discriminate].
       * rewrite C, E3, C2. split; [discriminate|intros [_ Q]; lia].
+      * intros _. exact C.
   - cbn [bind okr].
     apply (ev_unreg_fin s (ev_u2 s j) j I J RT I2 F2); try reflexivity.
     + change (rw_reg (ev_u2 s j) 16) with (rw_reg s 16). rewrite U2, C2, V5. intuition lia.
